@@ -138,7 +138,7 @@ fn explore_one(f: &TestFile, front: Front, acc: &mut Acc, spec: &Value) {
     let mut labels: Vec<(String, String)> = Vec::new();
     let st = bfs::explore(
         sys,
-        400_000,
+        60_000,
         |op, label| {
             let kind = op.split(':').next().unwrap_or(op).to_string();
             labels.push((kind, label.to_string()));
